@@ -72,9 +72,174 @@ def _const_bool(node, what):
     raise ValueError("unrecognised %s: %s" % (what, ast.dump(node)))
 
 
+class _Obj:
+    """a value a local name can be bound to during the symbolic run of a wrapper body"""
+    def __init__(self, init):
+        self.init = init            # normalised source text of the defining expression (locals inlined)
+        self.stores = []            # [(sequence number, index text, value text or ast node)]
+
+
+def _norm(text):
+    return ast.unparse(ast.parse(text, mode="eval"))
+
+
+class _WrapperRun:
+    """Symbolic evaluation of one wrapper body for one scenario (mask is None / mask is given): an environment of
+    locals, `if` on the mask decided by the scenario (so an early return is the same as if/else), pure locals inlined
+    into the expressions that use them, in-place stores recorded per object.  Anything it does not understand raises
+    (fail closed)."""
+
+    def __init__(self, fdef, masked):
+        self.f = fdef
+        self.masked = masked
+        self.env = {}
+        for a in fdef.args.args:
+            self.env[a.arg] = _Obj(a.arg)
+        self.seq = 0
+        self.calls = []             # (sequence number, argument object, table name, border, mode)
+        self.ret = None
+
+    def text(self, node):
+        """source text of an expression with pure locals replaced by their definitions"""
+        run = self
+
+        class Inl(ast.NodeTransformer):
+            def visit_Name(self, n):
+                o = run.env.get(n.id)
+                if o is None:
+                    return n
+                if o.stores:
+                    raise ValueError("%s: %s is modified in place and then used inside an expression" % (run.f.name, n.id))
+                return ast.parse("(" + o.init + ")", mode="eval").body
+        import copy
+        return _norm(ast.unparse(Inl().visit(copy.deepcopy(node))))
+
+    def cond(self, node):
+        if isinstance(node, ast.UnaryOp) and isinstance(node.op, ast.Not):
+            return not self.cond(node.operand)
+        if (isinstance(node, ast.Compare) and len(node.ops) == 1 and isinstance(node.left, ast.Name)
+                and self.env.get(node.left.id) is not None and self.env[node.left.id].init == "mask"
+                and not self.env[node.left.id].stores
+                and isinstance(node.comparators[0], ast.Constant) and node.comparators[0].value is None):
+            if isinstance(node.ops[0], ast.Is):
+                return not self.masked
+            if isinstance(node.ops[0], ast.IsNot):
+                return self.masked
+        raise ValueError("%s: unrecognised condition %s" % (self.f.name, ast.unparse(node)))
+
+    def value(self, node):
+        """object an expression evaluates to"""
+        if isinstance(node, ast.Name) and node.id in self.env:
+            return self.env[node.id]                       # alias, same object
+        if isinstance(node, ast.Call) and isinstance(node.func, ast.Name) and node.func.id == "table_lookup":
+            a = node.args
+            if node.keywords or not (3 <= len(a) <= 4) or not isinstance(a[0], ast.Name) or a[0].id not in self.env \
+                    or not isinstance(a[1], ast.Name):
+                raise ValueError("%s: unrecognised call %s" % (self.f.name, ast.unparse(node)))
+            border = _const_bool(a[2], "border value")
+            if len(a) == 3:
+                mode = -1
+            else:
+                it = a[3]
+                if isinstance(it, ast.Name) and it.id in self.env and self.env[it.id].init == "iterations" \
+                        and not self.env[it.id].stores:
+                    mode = -2
+                elif isinstance(it, ast.Constant) and isinstance(it.value, int) and not isinstance(it.value, bool) \
+                        and it.value >= 0:
+                    mode = it.value
+                else:
+                    raise ValueError("%s: unrecognised iterations argument %s" % (self.f.name, ast.unparse(it)))
+            self.seq += 1
+            self.calls.append((self.seq, self.env[a[0].id], a[1].id, border, mode))
+            return _Obj("<table_lookup result %d>" % self.seq)
+        for sub in ast.walk(node):
+            if isinstance(sub, ast.Call) and isinstance(sub.func, ast.Name):
+                raise ValueError("%s: unexpected call %s" % (self.f.name, ast.unparse(sub)))
+        return _Obj(self.text(node))
+
+    def block(self, stmts):
+        for st in stmts:
+            if self.ret is not None:
+                raise ValueError("%s: statement after return" % self.f.name)
+            if isinstance(st, ast.Expr) and isinstance(st.value, ast.Constant) and isinstance(st.value.value, str):
+                continue
+            if isinstance(st, (ast.Global, ast.Pass)):
+                continue
+            if isinstance(st, ast.If):
+                self.block(st.body if self.cond(st.test) else st.orelse)
+                if self.ret is not None:
+                    return
+                continue
+            if isinstance(st, ast.Return):
+                if st.value is None:
+                    raise ValueError("%s: bare return" % self.f.name)
+                self.ret = self.value(st.value)
+                return
+            if isinstance(st, ast.Assign) and len(st.targets) == 1:
+                t = st.targets[0]
+                if isinstance(t, ast.Name):
+                    self.env[t.id] = self.value(st.value)
+                    continue
+                if isinstance(t, ast.Subscript) and isinstance(t.value, ast.Name) and t.value.id in self.env:
+                    self.seq += 1
+                    val = st.value if isinstance(st.value, ast.Constant) else self.text(st.value)
+                    self.env[t.value.id].stores.append((self.seq, self.text(t.slice), val))
+                    continue
+            raise ValueError("%s: unrecognised statement %s" % (self.f.name, ast.unparse(st)[:80]))
+
+    def run(self):
+        self.block(self.f.body)
+        if self.ret is None:
+            raise ValueError("%s: path without return" % self.f.name)
+        return self
+
+
+def _wrapper_summary(fdef, tname):
+    """(border, mask fill or -1, mode) of one wrapper, from both paths of its body"""
+    op = fdef.name
+    if [a.arg for a in fdef.args.args][:2] != ["image", "mask"]:
+        raise ValueError("wrapper %s: unexpected parameters" % op)
+    res = {}
+    for masked in (False, True):
+        r = _WrapperRun(fdef, masked).run()
+        if len(r.calls) != 1:
+            raise ValueError("wrapper %s: %d table_lookup calls on the %s path" % (op, len(r.calls), "masked" if masked else "unmasked"))
+        seq, arg, table, border, mode = r.calls[0]
+        if table != tname:
+            raise ValueError("wrapper %s: uses table %s" % (op, table))
+        image = r.env["image"]
+        if image.init != "image" or image.stores:
+            raise ValueError("wrapper %s: rebinds or modifies its input image" % op)
+        if r.ret.init != "<table_lookup result %d>" % seq:
+            raise ValueError("wrapper %s: does not return the table_lookup result" % op)
+        if arg is image:
+            # the image itself goes in, nothing is restored: the mask (if any) is not taken into account
+            if r.ret.stores:
+                raise ValueError("wrapper %s: stores into the result without masking the input" % op)
+            fill = -1
+        else:
+            if not masked:
+                raise ValueError("wrapper %s: the unmasked path does not pass the image itself" % op)
+            if arg.init != "image.astype(bool).copy()" or len(arg.stores) != 1 or arg.stores[0][0] > seq \
+                    or arg.stores[0][1] != "~mask":
+                raise ValueError("wrapper %s: unrecognised masking of the input: %s %s" % (op, arg.init, arg.stores))
+            fill = _const_bool(arg.stores[0][2], "mask fill value") if not isinstance(arg.stores[0][2], str) else None
+            if fill is None:
+                raise ValueError("wrapper %s: mask fill value is not a constant" % op)
+            if len(r.ret.stores) != 1 or r.ret.stores[0][1] != "~mask" or r.ret.stores[0][2] != "image[~mask]":
+                raise ValueError("wrapper %s: unrecognised restore step %s" % (op, r.ret.stores))
+        res[masked] = (border, fill, mode)
+    if res[False][0] != res[True][0] or res[False][2] != res[True][2]:
+        raise ValueError("wrapper %s: masked and unmasked paths call table_lookup differently: %s" % (op, res))
+    if res[False][1] != -1:
+        raise ValueError("wrapper %s: unmasked path masks" % op)
+    return (res[True][0], res[True][1], res[True][2])
+
+
 def wrapper_meta(src):
-    """(border, maskfill or -1, mode) of every table wrapper, read from the AST of cpmorphology.py.
-    Fails closed on any shape other than the one the model was written for."""
+    """(border, maskfill or -1, mode) of every table wrapper, derived by symbolic evaluation of its body on the
+    unmasked and on the masked path (robust to early returns, hoisted or inlined sub-expressions, `not a is b` vs
+    `a is not b`, statement order that does not matter).  Fails closed on anything it cannot interpret."""
     tree = ast.parse(src)
     funs = {n.name: n for n in tree.body if isinstance(n, ast.FunctionDef)}
     res = {}
@@ -82,41 +247,7 @@ def wrapper_meta(src):
         f = funs.get(op)
         if f is None:
             raise ValueError("wrapper %s not found" % op)
-        calls = [c for c in ast.walk(f) if isinstance(c, ast.Call) and isinstance(c.func, ast.Name)]
-        tl = [c for c in calls if c.func.id == "table_lookup"]
-        other = sorted({c.func.id for c in calls} - {"table_lookup"})
-        if len(tl) != 1 or other or tl[0].keywords:
-            raise ValueError("wrapper %s: expected exactly one positional table_lookup call, found %d (%s)" % (op, len(tl), other))
-        a = tl[0].args
-        if not (3 <= len(a) <= 4) or not isinstance(a[0], ast.Name) or not isinstance(a[1], ast.Name) or a[1].id != tname:
-            raise ValueError("wrapper %s: unrecognised call %s" % (op, ast.unparse(tl[0])))
-        border = _const_bool(a[2], "border value")
-        if len(a) == 3:
-            mode = -1
-        elif isinstance(a[3], ast.Name) and a[3].id == "iterations":
-            mode = -2
-        elif isinstance(a[3], ast.Constant) and isinstance(a[3].value, int) and not isinstance(a[3].value, bool) and a[3].value >= 0:
-            mode = a[3].value
-        else:
-            raise ValueError("wrapper %s: unrecognised iterations argument %s" % (op, ast.unparse(a[3])))
-        subs = [s for s in ast.walk(f) if isinstance(s, ast.Assign) and isinstance(s.targets[0], ast.Subscript)]
-        texts = [ast.unparse(s) for s in subs]
-        if a[0].id == "image":
-            if subs:
-                raise ValueError("wrapper %s: unexpected stores %s" % (op, texts))
-            fill = -1
-        else:
-            if a[0].id != "masked_image" or len(subs) != 2 or texts[1] != "result[~mask] = image[~mask]" \
-                    or not texts[0].startswith("masked_image[~mask] = "):
-                raise ValueError("wrapper %s: unrecognised mask handling %s" % (op, texts))
-            fill = _const_bool(subs[0].value, "mask fill value")
-            # the rest of the body must be the known skeleton
-            body = ast.unparse(f)
-            for need in ("if mask is None:", "masked_image = image", "masked_image = image.astype(bool).copy()",
-                         "if not mask is None:", "return result"):
-                if need not in body:
-                    raise ValueError("wrapper %s: body lacks %r" % (op, need))
-        res[op] = (border, fill, mode)
+        res[op] = _wrapper_summary(f, tname)
     return res
 
 
@@ -337,10 +468,100 @@ def _doc_tables():
     for a, b, c in ((1, 3, 0), (1, 5, 2), (7, 5, 8), (7, 3, 6)):
         dg |= ((idx >> a) & 1).astype(bool) & ((idx >> b) & 1).astype(bool) & ~((idx >> c) & 1).astype(bool)
     d["diag"] = dg
+    d["endpoints"] = _CENTER & (pop <= 2)
+    e4 = None
+    d["branchpoints"] = np.array([bool(_CENTER[i]) and scind.label(pat(i & ~16))[1] > 2 for i in range(512)])
+    d["spur1"] = _CENTER & ~((pop == 2) & ((idx & 15) != 0))
+    d["spur2"] = _CENTER & ~((pop == 2) & ((idx & (32 + 64 + 128 + 256)) != 0))
     return d
 
 
 _DOC_TABLES = {}
+
+
+def _struct_img(rng):
+    """images on which the operations need SEVERAL rounds: blobs with straight or bent tails in any of the eight
+    directions, long one-pixel lines, nested rings, thick blobs, isolated points (thicken/bridge grow for many rounds),
+    diagonal stripes, and mixtures"""
+    H, W = int(rng.randint(5, 15)), int(rng.randint(5, 15))
+    img = np.zeros((H, W), bool)
+    dirs = [(-1, -1), (-1, 0), (-1, 1), (0, -1), (0, 1), (1, -1), (1, 0), (1, 1)]
+
+    def put(y, x):
+        if 0 <= y < H and 0 <= x < W:
+            img[y, x] = True
+    for _ in range(int(rng.randint(1, 4))):
+        kind = rng.choice(["tailblob", "tailblob", "line", "rings", "thick", "points", "stripes", "bent"])
+        y, x = int(rng.randint(H)), int(rng.randint(W))
+        if kind in ("tailblob", "bent"):
+            b = int(rng.randint(1, 4))
+            img[y:y + b, x:x + b] = True
+            for _t in range(int(rng.randint(1, 3))):
+                dy, dx = dirs[rng.randint(8)]
+                cy, cx = y + (b - 1 if dy > 0 else 0), x + (b - 1 if dx > 0 else 0)
+                n = int(rng.randint(2, 9))
+                for k in range(1, n + 1):
+                    if kind == "bent" and k == n // 2 + 1:
+                        dy, dx = dirs[rng.randint(8)]
+                    cy, cx = cy + dy, cx + dx
+                    put(cy, cx)
+        elif kind == "line":
+            dy, dx = dirs[rng.randint(8)]
+            for k in range(int(rng.randint(3, 12))):
+                put(y + k * dy, x + k * dx)
+        elif kind == "rings":
+            for r in range(0, int(rng.randint(2, 6)), 2):
+                y0, y1, x0, x1 = y - r, y + r, x - r, x + r
+                for yy in range(y0, y1 + 1):
+                    put(yy, x0); put(yy, x1)
+                for xx in range(x0, x1 + 1):
+                    put(y0, xx); put(y1, xx)
+        elif kind == "thick":
+            b = int(rng.randint(3, 8))
+            img[y:y + b, x:x + b] = True
+            if rng.rand() < 0.5:
+                put(y + b // 2, x + b // 2); img[min(H - 1, y + b // 2), min(W - 1, x + b // 2)] = False
+        elif kind == "points":
+            for _k in range(int(rng.randint(1, 5))):
+                put(int(rng.randint(H)), int(rng.randint(W)))
+        else:
+            off = int(rng.randint(2, 4))
+            yy, xx = np.indices((H, W))
+            img |= ((yy + xx) % off == 0) & (rng.rand(H, W) < 0.9)
+    if rng.rand() < 0.15:
+        img = ~img
+    if rng.rand() < 0.2:
+        img ^= rng.rand(H, W) < 0.03
+    return img
+
+
+def _rounds(op, img, mask, k):
+    """(rule output after k rounds or at the fixed point, number of the last round that still changed the image) by
+    the documented rule of the operation - generator-side reference used to pick and to COUNT multi-round cases"""
+    t = _DOC_TABLES
+    fillv = op in ("fill", "fill4")
+    cur = np.array(img, bool)
+    if mask is not None and op != "life":
+        cur = cur.copy(); cur[~np.array(mask, bool)] = fillv
+    if op in ("endpoints", "branchpoints"):
+        k = 1
+    if op in ("hbreak", "vbreak", "remove"):
+        k = None
+    limit = 80 if k is None else k
+    if op == "spur" and k is None:
+        limit = int(cur.sum())
+    last = 0
+    for r in range(1, limit + 1):
+        if op == "spur":
+            nxt = _ref_step(_ref_step(cur, t["spur1"], False), t["spur2"], False)
+        else:
+            nxt = _ref_step(cur, t[op], fillv)
+        if not np.array_equal(nxt, cur):
+            last = r
+        elif k is None and op != "spur":
+            return cur, last, True
+        cur = nxt
+    return cur, last, (k is not None or op == "spur")
 
 
 def _kind_table(rng, kind):
@@ -431,6 +652,36 @@ def generate(ctx):
                     continue
                 c["it"] = int(rng.choice([1, 2, 3]))
             cases.append(c)
+    # (b2) every wrapper with iterations in {default, 1, 2, 3, 5, None where it converges} on structured images that
+    # need several rounds; the evidence counts, per wrapper, the calls whose LAST requested round still changes the image
+    for op in OPS:
+        ctx.count("multi-round:%s (round >= 2 still changes the image)" % op, 0)    # zero stays visible
+        for it in ("default", 1, 2, 3, 5, -1):
+            made = 0
+            tries = 0
+            while made < ctx.n(8, 60) and tries < ctx.n(80, 600):
+                tries += 1
+                img = _struct_img(rng)
+                c = _op_case(rng, img, op)
+                c["it"] = "default" if op in ("endpoints", "branchpoints") else it
+                if rng.rand() < 0.7:
+                    c["mask"] = None
+                k = None if c["it"] == -1 else (1 if c["it"] == "default" else c["it"])
+                _, last, conv = _rounds(op, img, c["mask"], k)
+                if not conv:
+                    ctx.count("excluded:wrapper-call-that-does-not-terminate")
+                    continue
+                # prefer calls whose requested rounds are all active (for None: at least two active rounds)
+                want = 2 if k is None else k
+                if op not in ("endpoints", "branchpoints", "hbreak", "vbreak", "remove") and last < want and tries < ctx.n(60, 450):
+                    continue
+                cases.append(c)
+                made += 1
+                ctx.count("wrapper-iterations:%s:%s" % (op, "None" if it == -1 else it))
+                if last >= 2:
+                    ctx.count("multi-round:%s (round >= 2 still changes the image)" % op)
+                if last >= 3:
+                    ctx.count("multi-round:%s (round >= 3 still changes the image)" % op)
     # (c) random table_lookup calls
     for _ in range(ctx.n(1400, 24000)):
         H, W = _rand_shape(rng)
@@ -446,6 +697,48 @@ def generate(ctx):
         t[~_CENTER] = False
         cases.append({"fn": "idx", "img": _rand_img(rng, H, W).astype(int).tolist(), "tab": _bits(t),
                       "b": int(rng.randint(2)), "it": int(rng.choice([1, 2, 3, -1, 0]))})
+    # (g) inputs larger than any plausible internal chunk, every path: 1100x3 / 3x1100 (dense kernel), 1100x2 / 1x1100
+    # (slicing path), 300x300 sparse; thorough: 600x600 sparse (model skipped there: the line-level model of the dense
+    # kernel is quadratic; the rule itself is still evaluated on the implementation's output)
+    big_shapes = [(1100, 3, 0.4), (3, 1100, 0.4), (1100, 2, 0.5), (1, 1100, 0.5), (300, 300, 0.004)]
+    if not ctx.quick():
+        big_shapes += [(600, 600, 0.002), (1100, 3, 0.05), (3, 1100, 0.9), (2, 1100, 0.3), (1100, 1, 0.5), (64, 1100, 0.01)]
+    combos = [("erosive", "bool"), ("extensive", "bool"), ("neither", "bool"), ("erosive", "float64"),
+              ("extensive", "int32"), ("builtin", "uint8")]
+    for n, (H, W, dens) in enumerate(big_shapes):
+        # quick: three of the six (table class, dtype) combinations per shape, rotating, so that every path is taken
+        # all six (table class, dtype) combinations on the thin 1100-long shapes in the thorough tier; three of them,
+        # rotating so that every path is taken, elsewhere (quick tier, and the images with many pixels)
+        for kind, dt in (combos if (not ctx.quick() and H * W < 10000) else [combos[(n + j) % 6] for j in (0, 2, 4)]):
+            img = rng.rand(H, W) < dens
+            img[0, 0] = img[-1, -1] = img[0, -1] = img[-1, 0] = True
+            if kind == "builtin":
+                t = _doc_tables()[str(rng.choice(["majority", "bridge", "thicken", "diag"]))]
+            else:
+                t = _kind_table(rng, kind)
+            c = _tl_case(rng, img, t, kind)
+            c["dt"] = dt
+            c["it"] = int(rng.choice([1, 2]))
+            c["lay"] = str(rng.choice(["C", "F", "strided"]))
+            plain = not ((kind == "erosive" and dt != "float64") or (kind == "extensive" and dt == "bool"))
+            if H * W > 100000 or (H * W > 50000 and plain):
+                c["nomodel"] = True
+                c["it"] = 1
+            cases.append(c)
+            ctx.count("large-input")
+    for op in (OPS if not ctx.quick() else [OPS[int(k)] for k in rng.choice(len(OPS), 5, replace=False)]):
+        H, W = (1100, 3) if rng.rand() < 0.5 else (3, 1100)
+        c = _op_case(rng, rng.rand(H, W) < 0.5, op)
+        if c["it"] == -1 or not _op_safe(c):
+            c["it"] = "default" if op in ("endpoints", "branchpoints") else 2
+        if _op_safe(c):
+            cases.append(c)
+            ctx.count("large-input")
+    cases.append({"fn": "tli", "img": (rng.rand(1100, 3) < 0.5).astype(int).tolist()})
+    cases.append({"fn": "tli", "img": (rng.rand(3, 1100) < 0.5).astype(int).tolist()})
+    t = _kind_table(rng, "erosive")
+    for (H, W) in ((1100, 3), (3, 1100), (1, 1100)):
+        cases.append({"fn": "idx", "img": (rng.rand(H, W) < 0.6).astype(int).tolist(), "tab": _bits(t), "b": int(rng.randint(2)), "it": 2})
     # (f) the table construction helpers
     for _ in range(ctx.n(150, 1500)):
         care = (rng.rand(9) < rng.choice([0.3, 0.7, 1.0])).astype(int).tolist()
@@ -694,7 +987,12 @@ def _run_grouped(ctx, cases, argf, idxs=None):
 
 def model(ctx, cases, outs):
     fc, _, own = _flat(cases)
-    r = _run_grouped(ctx, fc, _margs)
+    run = [n for n, c in enumerate(fc) if not c.get("nomodel")]
+    r = _run_grouped(ctx, fc, _margs, run)
+    for n, c in enumerate(fc):
+        if c.get("nomodel"):
+            r[n] = "skipped"
+            ctx.count("model-skipped:large-image")
     res = [None] * len(cases)
     for n, k in enumerate(own):
         if cases[k]["fn"] == "seq":
@@ -707,6 +1005,8 @@ def model(ctx, cases, outs):
 
 
 def _compare1(case, out, m):
+    if m == "skipped" and not _bad(out):
+        return None
     if _bad(out):
         return "implementation raised/crashed: %s" % (str(out)[:300],)
     if isinstance(m, dict):
@@ -892,13 +1192,18 @@ def shrink_candidates(case):
             if steps and steps[0].get("reuse"):
                 steps[0].pop("reuse")
             return {"fn": "seq", "steps": steps, "iso": True}
-        if len(st) > 1:
+        n = len(st)
+        if n > 3:
+            yield mk(st[:n // 2])
+            yield mk(st[n // 2:])
+        if n > 1:
             yield mk(st[:-1])
             yield mk(st[1:])
-            for k in range(1, len(st) - 1):
+            mids = list(range(1, n - 1))
+            for k in mids[:: max(1, len(mids) // 6)][:6]:
                 yield mk(st[:k] + st[k + 1:])
-        for k in range(max(0, len(st) - 2), len(st)):
-            for sub in itertools.islice(shrink_candidates(st[k]), 6):
+        for k in range(max(0, n - 2), n):
+            for sub in itertools.islice(shrink_candidates(st[k]), 4):
                 if sub["fn"] == st[k]["fn"]:
                     yield mk(st[:k] + [sub] + st[k + 1:])
         return
@@ -912,6 +1217,8 @@ def shrink_candidates(case):
     def with_img(new, mask=None):
         c = dict(case)
         c["img"] = new
+        if len(new) * len(new[0]) <= 100000:
+            c.pop("nomodel", None)
         if fn == "op" and case.get("mask") is not None:
             c["mask"] = mask
         return c
